@@ -1,67 +1,68 @@
 /-
-  C03 — the grammar front-end accepts the documented syntax and builds the denoted AST.
+  C03 — ingredient: the last phase of `CharClassMatcher.parse` (ast.go: "extract ranges and chars") on the decoded runes.
 
-  The universal round trip over all ASTs and layouts is decided by execution (harness/cmd/pvfront:
-  generated ASTs printed in random spellings, parsed by the real front-end through the verif hook,
-  compared node by node incl. positions). Kernel-checked here: the second phase of
-  `CharClassMatcher.parse` (ast.go: "extract ranges and chars"), which turns the decoded rune
-  sequence of a class into single characters and ranges, inverts the printer for every class whose
-  single characters contain no `-` and whose ranges do not start with `-`.
+  Each decoded rune carries the mark "was written as an escape sequence". Since the repair of finding D3 an escaped `-` is a
+  character and never the range operator, so the extraction inverts the printer for EVERY list of characters and ranges when
+  characters are written escaped and the operator plain: no hypothesis on `-` is left (before the repair the decoded sequence
+  `a`, `-`, `c` was a range whether or not the `-` had been escaped, and the statement needed "no single `-`").
 -/
 import PigeonVerif.Model.ClassParse
 
 namespace PV
 namespace ClassParse
 
-/-- the printer: single characters first, then each range as `lo - hi` -/
-def printRanges : List (Rune × Rune) → List Rune
+/-- escaped single characters -/
+def markChars (cs : List Rune) : List (Rune × Bool) := cs.map (fun c => (c, true))
+
+/-- the printer of ranges on the decoded level: `lo` (escaped) `-` (plain) `hi` (escaped) -/
+def printRanges : List (Rune × Rune) → List (Rune × Bool)
   | [] => []
-  | (lo, hi) :: rest => lo :: dash :: hi :: printRanges rest
+  | (lo, hi) :: rest => (lo, true) :: (dash, false) :: (hi, true) :: printRanges rest
 
 def flat : List (Rune × Rune) → List Rune
   | [] => []
   | (lo, hi) :: rest => lo :: hi :: flat rest
 
-theorem run_append_nonlast (s : St) (r : Rune) (rest : List Rune) (h : rest ≠ []) :
-    run s (r :: rest) = run (step s r false) rest := by
+theorem run_append_nonlast (s : St) (r : Rune × Bool) (rest : List (Rune × Bool)) (h : rest ≠ []) :
+    run s (r :: rest) = run (step s r.1 r.2 false) rest := by
   cases rest with
   | nil => exact absurd rfl h
   | cons r' rest' => rfl
 
-/-- single characters without `-` are all kept as characters -/
-theorem run_chars (cs : List Rune) (hcs : ∀ c ∈ cs, c ≠ dash) (s : St) (hin : s.inRange = false)
-    (tail : List Rune) (ht : tail ≠ []) :
-    run s (cs ++ tail) = run { s with chars := s.chars ++ cs, wasRange := if cs.isEmpty then s.wasRange else false } tail := by
+/-- an escaped rune outside a range is a character, whatever it is -/
+theorem step_escaped (s : St) (c : Rune) (last : Bool) (hin : s.inRange = false) :
+    step s c true last = { s with chars := s.chars ++ [c], wasRange := false } := by
+  unfold step; simp [hin]
+
+/-- escaped single characters are all kept as characters -/
+theorem run_chars (cs : List Rune) (s : St) (hin : s.inRange = false) (tail : List (Rune × Bool)) (ht : tail ≠ []) :
+    run s (markChars cs ++ tail) =
+      run { s with chars := s.chars ++ cs, wasRange := if cs.isEmpty then s.wasRange else false } tail := by
   induction cs generalizing s with
-  | nil => simp
+  | nil => simp [markChars]
   | cons c cs ih =>
-    have hc : c ≠ dash := hcs c List.mem_cons_self
-    have hne : cs ++ tail ≠ [] := by simp [ht]
-    rw [List.cons_append, run_append_nonlast _ _ _ hne]
-    have hstep : step s c false = { s with chars := s.chars ++ [c], wasRange := false } := by
-      unfold step; simp [hin, hc]
-    rw [hstep]
-    have := ih (fun x hx => hcs x (List.mem_cons_of_mem _ hx)) { s with chars := s.chars ++ [c], wasRange := false } hin
+    have hne : markChars cs ++ tail ≠ [] := by simp [ht]
+    have hcons : markChars (c :: cs) ++ tail = (c, true) :: (markChars cs ++ tail) := rfl
+    rw [hcons, run_append_nonlast _ _ _ hne, step_escaped s c false hin]
+    have := ih { s with chars := s.chars ++ [c], wasRange := false } hin
     rw [this]
     cases cs <;> simp
 
-/-- a printed range is read back as a range, whatever its bounds, when the previous item was a
-    range or a character and the lower bound is not `-` -/
-theorem run_range (s : St) (lo hi : Rune) (rest : List Rune) (hin : s.inRange = false) (hlo : lo ≠ dash) :
-    run s (lo :: dash :: hi :: rest) =
+/-- a printed range is read back as a range, whatever its bounds -/
+theorem run_range (s : St) (lo hi : Rune) (rest : List (Rune × Bool)) (hin : s.inRange = false) :
+    run s ((lo, true) :: (dash, false) :: (hi, true) :: rest) =
       run { chars := s.chars, ranges := s.ranges ++ [lo, hi], inRange := false, wasRange := true } rest := by
-  have h1 : step s lo false = { s with chars := s.chars ++ [lo], wasRange := false } := by
-    unfold step; simp [hin, hlo]
-  rw [run_append_nonlast _ _ _ (by simp), h1, run_append_nonlast _ _ _ (by simp)]
-  have h2 : step { s with chars := s.chars ++ [lo], wasRange := false } dash false =
+  rw [run_append_nonlast _ _ _ (by simp), step_escaped s lo false hin, run_append_nonlast _ _ _ (by simp)]
+  have h2 : step { s with chars := s.chars ++ [lo], wasRange := false } dash false false =
       { chars := s.chars, ranges := s.ranges ++ [lo], inRange := true, wasRange := false } := by
     unfold step; simp [hin]
+  simp only [] at h2 ⊢
   rw [h2]
   cases rest with
   | nil => simp [run, step]
   | cons r rest => simp [run, step]
 
-theorem run_ranges (rs : List (Rune × Rune)) (hrs : ∀ p ∈ rs, p.1 ≠ dash) (s : St) (hin : s.inRange = false) :
+theorem run_ranges (rs : List (Rune × Rune)) (s : St) (hin : s.inRange = false) :
     run s (printRanges rs) =
       { s with ranges := s.ranges ++ flat rs, wasRange := if rs.isEmpty then s.wasRange else true } := by
   induction rs generalizing s with
@@ -69,48 +70,44 @@ theorem run_ranges (rs : List (Rune × Rune)) (hrs : ∀ p ∈ rs, p.1 ≠ dash)
   | cons p rs ih =>
     obtain ⟨lo, hi⟩ := p
     simp only [printRanges]
-    rw [run_range s lo hi _ hin (hrs (lo, hi) List.mem_cons_self)]
-    rw [ih (fun q hq => hrs q (List.mem_cons_of_mem _ hq)) _ rfl]
+    rw [run_range s lo hi _ hin]
+    rw [ih _ rfl]
     cases rs <;> simp [flat, hin]
 
-/-- **C03 (class round trip)** for every list of single characters without `-` and every list
-    of ranges whose lower bounds are not `-` (upper bounds arbitrary), extracting from the printed
-    class gives back exactly those characters and ranges. (The unrestricted statement is false:
-    finding D3 — an escaped `-` between two characters is read as a range operator.) -/
-theorem C03_class_roundtrip_partial (cs : List Rune) (rs : List (Rune × Rune))
-    (hcs : ∀ c ∈ cs, c ≠ dash) (hrs : ∀ p ∈ rs, p.1 ≠ dash) :
-    extract (cs ++ printRanges rs) = (cs, flat rs) := by
+/-- **C03 (class extraction round trip)** for EVERY list of single characters and EVERY list of ranges: extracting from the
+    decoded form of the canonical spelling (characters and range bounds escaped, the range operator plain) gives back exactly
+    those characters and ranges - a `-` among the characters or as a range bound included. -/
+theorem C03_class_extraction_roundtrip (cs : List Rune) (rs : List (Rune × Rune)) :
+    extract (markChars cs ++ printRanges rs) = (cs, flat rs) := by
   unfold extract
   cases rs with
   | nil =>
     simp only [printRanges, List.append_nil, flat]
-    -- only characters: no `-` at all, every rune is kept
-    have : ∀ (s : St), s.inRange = false → (run s cs).chars = s.chars ++ cs ∧ (run s cs).ranges = s.ranges := by
+    have : ∀ (s : St), s.inRange = false → (run s (markChars cs)).chars = s.chars ++ cs ∧ (run s (markChars cs)).ranges = s.ranges := by
       induction cs with
-      | nil => intro s _; simp [run]
+      | nil => intro s _; simp [run, markChars]
       | cons c cs ih =>
         intro s hin
-        have hc : c ≠ dash := hcs c List.mem_cons_self
         cases cs with
-        | nil => simp [run, step, hin, hc]
+        | nil => simp [run, markChars, step_escaped s c true hin]
         | cons c' cs' =>
-          have hstep : step s c false = { s with chars := s.chars ++ [c], wasRange := false } := by
-            unfold step; simp [hin, hc]
-          have := ih (fun x hx => hcs x (List.mem_cons_of_mem _ hx)) (step s c false) (by rw [hstep]; exact hin)
-          rw [run_append_nonlast _ _ _ (by simp)]
-          rw [hstep] at this ⊢
+          have := ih (step s c true false) (by rw [step_escaped s c false hin]; exact hin)
+          have hcons : markChars (c :: c' :: cs') = (c, true) :: markChars (c' :: cs') := rfl
+          rw [hcons, run_append_nonlast _ _ _ (by simp [markChars])]
+          rw [step_escaped s c false hin] at this ⊢
           simpa using this
     have h := this { chars := [], ranges := [], inRange := false, wasRange := false } rfl
     simp at h
     exact Prod.ext h.1 h.2
   | cons p rs =>
     have hne : printRanges (p :: rs) ≠ [] := by obtain ⟨lo, hi⟩ := p; simp [printRanges]
-    rw [run_chars cs hcs _ rfl _ hne, run_ranges (p :: rs) hrs _ rfl]
+    rw [run_chars cs _ rfl _ hne, run_ranges (p :: rs) _ rfl]
     simp
 
-/-- D3 witness at this level: the decoded sequence `a - c` is a range even when the `-` was written
-    escaped (`[a\\x2dc]`): the extraction cannot tell, the information is lost in the decoding phase -/
-example : extract [97, 45, 99] = ([], [97, 99]) := by decide
+/-- what finding D3 was: on the decoded level `a`, `-`, `c` with a PLAIN `-` is the range a-c (as it must be) ... -/
+example : extract [(97, false), (45, false), (99, false)] = ([], [97, 99]) := by decide
+/-- ... and with an ESCAPED `-` (`[a\x2dc]`) it is three characters; before the repair it was the same range -/
+example : extract [(97, false), (45, true), (99, false)] = ([97, 45, 99], []) := by decide
 
 end ClassParse
 end PV
